@@ -120,6 +120,11 @@ const STEPS: &[(&str, &str)] = &[
     ("exec 3<<E\nkept\nE\ncat <&3; exec 3<&-; cat <&3; echo $?", "here-document-on-free-descriptor"),
     ("{ cat <&4; } 4<<E 3</dev/null\ngroup\nE", "here-document-on-free-descriptor"),
     ("exec 3<<E\nsub\nE\n(cat <&3); exec 4<&3 3<&-; cat <&4", "here-document-on-free-descriptor"),
+    // `wait` while the only child left is a stopped one whose stop has been seen already and a
+    // later child has been reaped: the shell keeps waiting (the other side of the pipeline
+    // continues and ends the job)
+    ("{ trap - TERM; { while :; do :; done; } & p=$!; kill -s STOP $p; (exit 0); echo $p; wait $p; echo st=$?; } | { read p; kill -s CONT $p; kill -s TERM $p; cat; }", "wait-with-only-a-stopped-child"),
+    ("{ trap - TERM; { while :; do :; done; } & p=$!; kill -s STOP $p; (exit 0); (exit 1); echo $p; wait; echo st=$?; } | { read p; kill -s CONT $p; kill -s TERM $p; cat; }", "wait-with-only-a-stopped-child"),
     ("cd d; cd ..; cd -; pwd", "cd-oldpwd"),
     ("read a b <e2; echo \"$a|$b\"", "read-file"),
     // a symbolic link to a directory as a component that is not the last one (fixture: d/s/k, l2 -> ld/s)
